@@ -274,7 +274,11 @@ fn store_inconsistency(store: &AnnotationStore) -> Option<String> {
             let ds: &AnnotationDataSet = match store.get(*set) { Ok(d) => d, Err(_) => return Some(format!("annotation {} uses data of removed dataset {:?}", i, set)) };
             if <AnnotationDataSet as StoreFor<AnnotationData>>::get(ds, *data).is_err() { return Some(format!("annotation {} uses removed data {:?}", i, (set, data))); }
         }
+        let all_leafs: Vec<Selector> = a.target().iter(store, false).map(|s| s.into_owned()).collect();
         for sel in a.target().iter(store, false) {
+            // a target may name the same thing more than once (a MultiSelector with the same part twice): the index then lists
+            // the annotation once per occurrence
+            let times = all_leafs.iter().filter(|x| format!("{:?}", x) == format!("{:?}", sel.as_ref())).count();
             let (name, n, want) = match sel.as_ref() {
                 Selector::TextSelector(r, t, _) => ("textrelationmap", count(store.textrelationmap.get(*r, *t), &h), cfg.textrelationmap),
                 Selector::AnnotationSelector(a2, off) => {
@@ -288,7 +292,7 @@ fn store_inconsistency(store: &AnnotationStore) -> Option<String> {
                 Selector::AnnotationDataSelector(s, d) => ("data_annotation_metamap", count(store.data_annotation_metamap.get(*s, *d), &h), cfg.data_annotation_metamap),
                 _ => continue,
             };
-            if want && n != 1 { return Some(format!("annotation {} has target {:?} but {} lists it {} times", i, sel.as_ref(), name, n)); }
+            if want && n != times { return Some(format!("annotation {} has target {:?} {} time(s) but {} lists it {} times", i, sel.as_ref(), times, name, n)); }
         }
     }
     // reverse -> forward
@@ -834,4 +838,84 @@ fn find_annotate_failures() {
         }
     }
     println!("NO-WITNESS find_annotate_failures");
+}
+
+/// bounded stand-in for the loader part of C19 (serde visitors and builders are outside the verifier's reach): 40 malformed or
+/// hostile STAM JSON documents (offsets beyond the text, inverted, wrongly aligned or huge cursors; unknown, self-referencing
+/// and wrongly typed ids; temporary ids of the wrong kind, duplicated, non-numeric, overflowing or leaving gaps; nested and empty
+/// complex selectors; broken data references) must load or be rejected without a panic; what loads must be consistent and readable
+#[test]
+fn find_load_untrusted() {
+    let doc = |annotations: &str| -> String { format!(r#"{{ "@type": "AnnotationStore",
+        "annotationsets": [{{ "@type": "AnnotationDataSet", "@id": "d", "keys": [{{"@type": "DataKey", "@id": "k"}}],
+            "data": [{{"@type": "AnnotationData", "@id": "D1", "key": "k", "value": {{"@type": "String", "value": "v"}}}}] }}],
+        "resources": [{{ "@id": "r", "text": "Hello world" }}],
+        "annotations": [{}] }}"#, annotations) };
+    let ann = |id: &str, target: &str, data: &str| -> String { format!(r#"{{ "@type": "Annotation", "@id": "{}", "target": {}, "data": [{}] }}"#, id, target, data) };
+    let cur = |ty: &str, v: &str| format!(r#"{{"@type": "{}", "value": {}}}"#, ty, v);
+    let tsel = |res: &str, b: String, e: String| format!(r#"{{"@type": "TextSelector", "resource": "{}", "offset": {{"begin": {}, "end": {}}}}}"#, res, b, e);
+    let ok_target = || tsel("r", cur("BeginAlignedCursor", "0"), cur("BeginAlignedCursor", "5"));
+    let d1 = r#"{"@type": "AnnotationData", "@id": "D1", "set": "d"}"#;
+    let mut docs: Vec<(String, String)> = vec![];
+    let mut add = |name: &str, body: String| docs.push((name.to_string(), doc(&body)));
+    add("baseline", ann("A1", &ok_target(), d1));
+    add("end beyond the text", ann("A1", &tsel("r", cur("BeginAlignedCursor", "5"), cur("BeginAlignedCursor", "1000")), d1));
+    add("end before begin", ann("A1", &tsel("r", cur("BeginAlignedCursor", "8"), cur("BeginAlignedCursor", "3")), d1));
+    add("positive end-aligned cursor", ann("A1", &tsel("r", cur("BeginAlignedCursor", "0"), cur("EndAlignedCursor", "5")), d1));
+    add("end-aligned cursor before the text", ann("A1", &tsel("r", cur("EndAlignedCursor", "-1000"), cur("EndAlignedCursor", "0")), d1));
+    add("negative begin-aligned cursor", ann("A1", &tsel("r", cur("BeginAlignedCursor", "-1"), cur("BeginAlignedCursor", "3")), d1));
+    add("huge cursor", ann("A1", &tsel("r", cur("BeginAlignedCursor", "0"), cur("BeginAlignedCursor", "18446744073709551615")), d1));
+    add("end-aligned minimum", ann("A1", &tsel("r", cur("EndAlignedCursor", "-9223372036854775808"), cur("EndAlignedCursor", "0")), d1));
+    add("cursor of unknown type", ann("A1", &tsel("r", cur("MiddleCursor", "0"), cur("BeginAlignedCursor", "3")), d1));
+    add("unknown resource", ann("A1", &tsel("nope", cur("BeginAlignedCursor", "0"), cur("BeginAlignedCursor", "3")), d1));
+    add("annotation selector to an unknown annotation", ann("A1", r#"{"@type": "AnnotationSelector", "annotation": "nope"}"#, d1));
+    add("annotation selector to itself", ann("A1", r#"{"@type": "AnnotationSelector", "annotation": "A1"}"#, d1));
+    add("annotation selector with offset on a later annotation", format!("{}, {}", ann("A1", &format!(r#"{{"@type": "AnnotationSelector", "annotation": "A2", "offset": {{"begin": {}, "end": {}}}}}"#, cur("BeginAlignedCursor", "0"), cur("BeginAlignedCursor", "2")), d1), ann("A2", &ok_target(), d1)));
+    add("annotation selector with an offset outside its target", format!("{}, {}", ann("A1", &ok_target(), d1), ann("A2", &format!(r#"{{"@type": "AnnotationSelector", "annotation": "A1", "offset": {{"begin": {}, "end": {}}}}}"#, cur("BeginAlignedCursor", "3"), cur("BeginAlignedCursor", "9")), d1)));
+    add("annotation selector with offset on an annotation without text", format!("{}, {}", ann("A1", r#"{"@type": "ResourceSelector", "resource": "r"}"#, d1), ann("A2", &format!(r#"{{"@type": "AnnotationSelector", "annotation": "A1", "offset": {{"begin": {}, "end": {}}}}}"#, cur("BeginAlignedCursor", "0"), cur("BeginAlignedCursor", "2")), d1)));
+    add("dataset selector to an unknown dataset", ann("A1", r#"{"@type": "DataSetSelector", "dataset": "nope"}"#, d1));
+    add("data key selector to an unknown key", ann("A1", r#"{"@type": "DataKeySelector", "dataset": "d", "key": "nope"}"#, d1));
+    add("annotation data selector to unknown data", ann("A1", r#"{"@type": "AnnotationDataSelector", "dataset": "d", "data": "nope"}"#, d1));
+    add("selector of unknown type", ann("A1", r#"{"@type": "MagicSelector", "resource": "r"}"#, d1));
+    add("empty multi selector", ann("A1", r#"{"@type": "MultiSelector", "selectors": []}"#, d1));
+    add("multi selector with one part", ann("A1", &format!(r#"{{"@type": "MultiSelector", "selectors": [{}]}}"#, ok_target()), d1));
+    add("nested multi selector", ann("A1", &format!(r#"{{"@type": "MultiSelector", "selectors": [{}, {{"@type": "CompositeSelector", "selectors": [{}, {}]}}]}}"#, ok_target(), ok_target(), ok_target()), d1));
+    add("multi selector with the same part twice", ann("A1", &format!(r#"{{"@type": "MultiSelector", "selectors": [{}, {}]}}"#, ok_target(), ok_target()), d1));
+    add("directional selector over two data key selectors", ann("A1", r#"{"@type": "DirectionalSelector", "selectors": [{"@type": "DataKeySelector", "dataset": "d", "key": "k"}, {"@type": "DataKeySelector", "dataset": "d", "key": "k"}]}"#, d1));
+    add("composite selector mixing kinds", ann("A1", &format!(r#"{{"@type": "CompositeSelector", "selectors": [{}, {{"@type": "ResourceSelector", "resource": "r"}}, {{"@type": "DataSetSelector", "dataset": "d"}}]}}"#, ok_target()), d1));
+    add("data in an unknown set", ann("A1", &ok_target(), r#"{"@type": "AnnotationData", "@id": "D1", "set": "nope"}"#));
+    add("unknown data id without key", ann("A1", &ok_target(), r#"{"@type": "AnnotationData", "@id": "nope", "set": "d"}"#));
+    add("data without set", ann("A1", &ok_target(), r#"{"@type": "AnnotationData", "key": "k", "value": {"@type": "Int", "value": 1}}"#));
+    add("data value of the wrong type", ann("A1", &ok_target(), r#"{"@type": "AnnotationData", "set": "d", "key": "k", "value": {"@type": "Int", "value": "x"}}"#));
+    add("no data at all", format!(r#"{{ "@type": "Annotation", "@id": "A1", "target": {} }}"#, ok_target()));
+    add("no target", r#"{ "@type": "Annotation", "@id": "A1", "data": [] }"#.to_string());
+    add("duplicate annotation id", format!("{}, {}", ann("A1", &ok_target(), d1), ann("A1", &ok_target(), d1)));
+    add("temporary id leaving a gap", ann("!A5", &ok_target(), d1));
+    add("temporary id twice", format!("{}, {}", ann("!A0", &ok_target(), d1), ann("!A0", &ok_target(), d1)));
+    add("temporary ids out of order", format!("{}, {}", ann("!A3", &ok_target(), d1), ann("!A1", &ok_target(), d1)));
+    add("temporary id of another kind", ann("!R0", &ok_target(), d1));
+    add("temporary id without a number", ann("!A", &ok_target(), d1));
+    add("temporary id with a sign", ann("!A-1", &ok_target(), d1));
+    add("temporary id that overflows", ann("!A18446744073709551616", &ok_target(), d1));
+    add("non-ASCII temporary id", ann("!É1", &ok_target(), d1));
+    add("reference by temporary id to a gap", format!("{}, {}", ann("!A2", &ok_target(), d1), ann("X", r#"{"@type": "AnnotationSelector", "annotation": "!A0"}"#, d1)));
+    for (name, json) in &docs {
+        let r = std::panic::catch_unwind(|| {
+            match AnnotationStore::from_json_str(json, Config::default()) {
+                Err(_) => None,
+                Ok(store) => {
+                    // what loaded must be consistent and readable
+                    if let Some(e) = store_inconsistency(&store) { return Some(format!("loaded but inconsistent: {}", e)); }
+                    for a in store.annotations() { let _ = a.text().collect::<Vec<_>>(); let _ = a.textselections().count(); for d in a.data() { let _ = d.value(); } let _ = a.annotations_in_targets(AnnotationDepth::Max).count(); }
+                    None
+                }
+            }
+        });
+        match r {
+            Err(_) => { println!("WITNESS {{\"clause\":\"loading an untrusted document never panics\",\"document\":{:?},\"problem\":\"panic\"}}", name); return; }
+            Ok(Some(p)) => { println!("WITNESS {{\"clause\":\"loading an untrusted document never panics\",\"document\":{:?},\"problem\":{:?}}}", name, p); return; }
+            Ok(None) => {}
+        }
+    }
+    println!("NO-WITNESS find_load_untrusted");
 }
